@@ -27,7 +27,8 @@ from pbt.props import _arrayobjs as ao
 # ======================================================================= dict round trip
 @st.composite
 def roundtrip_case(draw):
-    return {"axis": draw(ao.axis_spec())}
+    # every AxisMetadata subclass abTEM defines, including the one outside core/axes.py
+    return {"axis": draw(ao.axis_spec(classes=ao.ALL_AXES + list(ao.EXTRA_AXES)))}
 
 
 def _leaf_types_ok(x):
@@ -93,7 +94,10 @@ def check_dict_roundtrip(case, ctx):
             raise Violation(f"{name}: type entry {d.get('type')!r} for a {cls}", (name, "type_entry"))
         if not _leaf_types_ok(d):
             raise Violation(f"{name}: dict holds non-serialisable leaves: {d!r}", (name, "leaf_types"))
-        b = from_d(d)
+        try:
+            b = from_d(d)
+        except KeyError as e:
+            raise Violation(f"{name}: cannot rebuild a {cls} from its own dict: KeyError {e}", ("unknown_class", cls))
         if type(b) is not type(a):
             raise Violation(f"{name}: class {type(b).__name__} came back for {cls}", (name, "class"))
         if not ao.axes_identical(b, reference):
